@@ -16,7 +16,7 @@ import (
 func init() { Registry["C13"] = checkC13 }
 
 func checkC13(p *core.Prog, r *core.Report) {
-	r.Explanation = "Decides a stated domain of crash sites reachable from client input (connection goroutines have no recover(), checked as a fact): (R1) in every function of server/ and protocol/ that receives a text command's argument list ([]string parameter), every index args[c], args[v+c] and re-slice args[c:] is covered on its path by a length test of that list (len(args) lower bound from ==, <, <=, != tests in either polarity; v+c forms by a test of the same v against len(args)); a guard on a different expression of v does not count; (R2) every result code has an ERROR_MSG entry; (R3) the optional pointers LockCommand.Data, LockResultCommand.Data, LockManager.currentData and Lock.data are dereferenced (field access or method call) only on paths that tested them non-nil; (R4) constant indexes into client value frames (LockCommandData.Data, origin byte frames) are covered by a length test or by the frame reader's minimum length. Sites outside the domain (indices through struct fields, data-dependent offsets, loops with stride arithmetic) are counted as outside_domain and not claimed. (R5) in the text parser and stream readers an index of the form v-c (c>0) is covered by a test v >= c on its path. (R6) in the text parser every rbuf[e] has e < bufLen and every rbuf[a:b] has b <= bufLen on its path (linear entailment over the symbolic cursor and length; loop-carried locals are outside the domain); (R7) the per-connection reply buffer: every advance of the write index provably fits and the invariant index+64 <= len(buf) is re-established at every exit (inductive, assuming it at entry); (R8) the text protocol's recycled reply object has every argument-dependent field reassigned on every path before hand-over; (R9) constant and constant-bounded loop indexes into fixed-capacity tables (slices only ever made with a constant length) stay below the capacity (field cursors: only where a path fact bounds the cursor, and not in functions whose exploration exceeds the step budget). NOT decided: integer overflow, huge allocations, channel/close misuse, type assertions, deadlock, stack exhaustion."
+	r.Explanation = "Decides a stated domain of crash sites reachable from client input (connection goroutines have no recover(), checked as a fact): (R1) in every function of server/ and protocol/ that receives a text command's argument list ([]string parameter), every index args[c], args[v+c] and re-slice args[c:] is covered on its path by a length test of that list (len(args) lower bound from ==, <, <=, != tests in either polarity; v+c forms by a test of the same v against len(args)); a guard on a different expression of v does not count; (R2) every result code has an ERROR_MSG entry; (R3) the optional pointers LockCommand.Data, LockResultCommand.Data, LockManager.currentData and Lock.data are dereferenced (field access or method call) only on paths that tested them non-nil; (R4) constant indexes into client value frames (LockCommandData.Data, origin byte frames) are covered by a length test or by the frame reader's minimum length. Sites outside the domain (indices through struct fields, data-dependent offsets, loops with stride arithmetic) are counted as outside_domain and not claimed. (R5) in the text parser and stream readers an index of the form v-c (c>0) is covered by a test v >= c on its path. (R6) in the text parser every rbuf[e] has e < bufLen and every rbuf[a:b] has b <= bufLen on its path (linear entailment over the symbolic cursor and length; loop-carried locals are outside the domain); (R7) the per-connection reply buffer: every advance of the write index provably fits and the invariant index+64 <= len(buf) is re-established at every exit (inductive, assuming it at entry); (R8) the text protocol's recycled reply object has every argument-dependent field reassigned on every path before hand-over; (R9) constant and constant-bounded loop indexes into fixed-capacity tables (slices only ever made with a constant length) stay below the capacity (field cursors: only where a path fact bounds the cursor, and not in functions whose exploration exceeds the step budget). (R10) every make() whose size derives from an integer decoded from the wire (strconv parse, multi-byte word, a field holding one; parameters not followed) is bounded by the width of the decoded word (<= 32 bits) or by a test on its path - the out-of-range panic of make, not memory exhaustion. NOT decided: integer overflow, memory exhaustion by large but representable allocations, channel/close misuse, type assertions, deadlock, stack exhaustion."
 	r.Assumptions = []string{"Go type checker and go/ssa are correct for /repo", "a handler dispatched through a command registry receives the parsed command with its name at args[0] (len(args) >= 1)", "a panic in any goroutine started for a connection kills the process (no recover in Server.handle: asserted)"}
 	c13NoRecover(p, r)
 	c13R1(p, r)
@@ -28,6 +28,7 @@ func checkC13(p *core.Prog, r *core.Report) {
 	c13R7(p, r)
 	c13R8(p, r)
 	c13R9(p, r)
+	c13R10(p, r)
 }
 
 // c13NoRecover asserts the premise that makes every panic fatal.
@@ -1321,6 +1322,266 @@ func c13R9(p *core.Prog, r *core.Report) {
 					}
 				}
 			}
+		}
+	}
+}
+
+// ---------------------------------------------------------------------------
+// R10: allocations sized by an integer decoded from the wire. make() panics
+// ("len/cap out of range") for sizes beyond the address space and a connection
+// goroutine has no recover(), so such a size needs an upper bound on its path.
+//
+// Wire integers (found in the code, not listed): the result of a strconv
+// integer parse, a word assembled from two or more bytes of a byte slice with
+// shifts, and a load of a struct field that some function of the module stores
+// such a value into. Function parameters are not followed (stated limit).
+
+func c13WireInts(p *core.Prog) (isWire func(v ssa.Value) bool, fields map[core.FieldKey]bool) {
+	fields = map[core.FieldKey]bool{}
+	var wire func(v ssa.Value, depth int, seen map[ssa.Value]bool) bool
+	byteLoads := func(v ssa.Value) int {
+		// number of distinct byte loads from a slice/array under an OR/ADD/SHL tree
+		n := 0
+		var walk func(v ssa.Value, d int)
+		walk = func(v ssa.Value, d int) {
+			if d > 12 {
+				return
+			}
+			switch t := v.(type) {
+			case *ssa.BinOp:
+				if t.Op == token.OR || t.Op == token.ADD || t.Op == token.SHL {
+					walk(t.X, d+1)
+					if t.Op != token.SHL {
+						walk(t.Y, d+1)
+					}
+				}
+			case *ssa.Convert:
+				walk(t.X, d+1)
+			case *ssa.UnOp:
+				if ia, ok := t.X.(*ssa.IndexAddr); ok {
+					if b, ok := t.Type().Underlying().(*types.Basic); ok && (b.Kind() == types.Uint8 || b.Kind() == types.Byte) {
+						_ = ia
+						n++
+					}
+				}
+			}
+		}
+		walk(v, 0)
+		return n
+	}
+	wire = func(v ssa.Value, depth int, seen map[ssa.Value]bool) bool {
+		if depth > 10 || seen[v] {
+			return false
+		}
+		seen[v] = true
+		switch t := v.(type) {
+		case *ssa.Extract:
+			if c, ok := t.Tuple.(*ssa.Call); ok && t.Index == 0 {
+				if callee := c.Common().StaticCallee(); callee != nil && callee.Pkg != nil && callee.Pkg.Pkg.Path() == "strconv" {
+					switch callee.Name() {
+					case "Atoi", "ParseInt", "ParseUint":
+						return true
+					}
+				}
+			}
+		case *ssa.Convert:
+			return wire(t.X, depth+1, seen)
+		case *ssa.ChangeType:
+			return wire(t.X, depth+1, seen)
+		case *ssa.Phi:
+			for _, e := range t.Edges {
+				if wire(e, depth+1, seen) {
+					return true
+				}
+			}
+		case *ssa.BinOp:
+			switch t.Op {
+			case token.OR:
+				if byteLoads(t) >= 2 {
+					return true
+				}
+				return wire(t.X, depth+1, seen) || wire(t.Y, depth+1, seen)
+			case token.ADD, token.SUB, token.MUL, token.SHL:
+				return wire(t.X, depth+1, seen) || wire(t.Y, depth+1, seen)
+			}
+		case *ssa.UnOp:
+			if t.Op == token.MUL {
+				if fa, ok := t.X.(*ssa.FieldAddr); ok {
+					return fields[core.FieldKeyOf(fa.X.Type(), fa.Field)]
+				}
+			}
+		}
+		return false
+	}
+	// fields that receive a wire integer (fixpoint, the field set only grows)
+	for changed := true; changed; {
+		changed = false
+		for _, fn := range p.Funcs() {
+			for _, b := range fn.Blocks {
+				for _, ins := range b.Instrs {
+					st, ok := ins.(*ssa.Store)
+					if !ok {
+						continue
+					}
+					fa, ok := st.Addr.(*ssa.FieldAddr)
+					if !ok {
+						continue
+					}
+					if _, isInt := st.Val.Type().Underlying().(*types.Basic); !isInt {
+						continue
+					}
+					k := core.FieldKeyOf(fa.X.Type(), fa.Field)
+					if !fields[k] && wire(st.Val, 0, map[ssa.Value]bool{}) {
+						fields[k] = true
+						changed = true
+					}
+				}
+			}
+		}
+	}
+	return func(v ssa.Value) bool { return wire(v, 0, map[ssa.Value]bool{}) }, fields
+}
+
+func c13R10(p *core.Prog, r *core.Report) {
+	const rule = "C13/R10"
+	r.Rule(rule, "every make() whose length or capacity derives from an integer decoded from the wire (strconv parse, multi-byte word from a byte slice, or a field holding one) is bounded by the width of the decoded word (at most 32 bits) or by a test on its path", 4)
+	isWire, fields := c13WireInts(p)
+	r.Stats["R10_wire_fields"] = len(fields)
+	const limit = int64(1) << 33
+	// the largest value the static types allow (a word assembled from uint32/uint16/byte
+	// pieces cannot exceed its type; only untyped-width integers - strconv results, int
+	// fields - need a test on the path)
+	var typeBound func(v ssa.Value, d int) int64
+	typeBound = func(v ssa.Value, d int) int64 {
+		const inf = int64(1) << 62
+		if d > 12 {
+			return inf
+		}
+		if c, ok := v.(*ssa.Const); ok && c.Value != nil {
+			if n := c.Int64(); n >= 0 {
+				return n
+			}
+			return inf
+		}
+		byType := inf
+		if b, ok := v.Type().Underlying().(*types.Basic); ok {
+			switch b.Kind() {
+			case types.Uint8:
+				byType = 255
+			case types.Uint16:
+				byType = 65535
+			case types.Uint32:
+				byType = 1<<32 - 1
+			}
+		}
+		byShape := inf
+		switch t := v.(type) {
+		case *ssa.Convert:
+			byShape = typeBound(t.X, d+1)
+		case *ssa.BinOp:
+			switch t.Op {
+			case token.OR, token.ADD:
+				a, b := typeBound(t.X, d+1), typeBound(t.Y, d+1)
+				if a < inf && b < inf {
+					byShape = a + b
+				}
+			case token.SHL:
+				if k, ok := t.Y.(*ssa.Const); ok && k.Int64() < 31 {
+					if a := typeBound(t.X, d+1); a < 1<<31 {
+						byShape = a << uint(k.Int64())
+					}
+				}
+			}
+		}
+		if byShape < byType {
+			return byShape
+		}
+		return byType
+	}
+	ordinal := func(fn *ssa.Function, mk *ssa.MakeSlice) int {
+		n := 0
+		for _, b := range fn.Blocks {
+			for _, ins := range b.Instrs {
+				if m, ok := ins.(*ssa.MakeSlice); ok {
+					n++
+					if m == mk {
+						return n
+					}
+				}
+			}
+		}
+		return 0
+	}
+	for _, fn := range p.Funcs() {
+		if fn.Blocks == nil || p.IsNewFunc(fn) {
+			continue
+		}
+		pkg := strings.SplitN(core.FuncName(fn), ".", 2)[0]
+		if pkg != "server" && pkg != "protocol" {
+			continue
+		}
+		has := false
+		for _, b := range fn.Blocks {
+			for _, ins := range b.Instrs {
+				if mk, ok := ins.(*ssa.MakeSlice); ok && (isWire(mk.Len) || isWire(mk.Cap)) {
+					has = true
+				}
+			}
+		}
+		if !has {
+			continue
+		}
+		name := core.FuncName(fn)
+		done := map[string]bool{}
+		ex := core.NewExplorer(p, core.Hooks{
+			Track: func(x *core.X, a core.Atom) bool {
+				_, okR := core.ParseIntStr(a.R)
+				_, okL := core.ParseIntStr(a.L)
+				return okR || okL
+			},
+			Instr: func(x *core.X) {
+				mk, ok := x.Ins.(*ssa.MakeSlice)
+				if !ok {
+					return
+				}
+				for _, sz := range []ssa.Value{mk.Len, mk.Cap} {
+					if !isWire(sz) {
+						continue
+					}
+					key := fmt.Sprintf("%s: make#%d", core.FuncName(mk.Parent()), ordinal(mk.Parent(), mk))
+					if typeBound(sz, 0) < limit {
+						if !done[key] {
+							r.Hold(rule, key, x.Pos(), "size bounded by the width of the decoded word")
+						}
+						done[key] = true
+						continue
+					}
+					lin := core.ParseLin(core.Plain(x.Canon(sz).S))
+					unbounded := ""
+					for term, coef := range lin.T {
+						if coef <= 0 || strings.HasPrefix(term, "len(") || strings.HasPrefix(term, "cap(") {
+							continue
+						}
+						ub := x.St.Facts.UpperBound(term)
+						if ub >= limit {
+							unbounded = term
+						}
+					}
+					if unbounded == "" {
+						if !done[key] {
+							r.Hold(rule, key, x.Pos(), "size bounded on the path")
+						}
+					} else {
+						r.Violate(rule, key, x.Pos(), "make() is sized by "+unbounded+", an integer decoded from the wire, with no upper bound on this path: a client that sends a huge number makes the runtime panic (makeslice: len/cap out of range) in a goroutine without recover(), which ends the process", x.St.Trace)
+					}
+					done[key] = true
+				}
+			},
+		})
+		ex.MaxSteps = 400000
+		ex.Run(fn, nil)
+		if ex.Imprecise != "" {
+			r.Fail("C13/R10 %s: %s", name, ex.Imprecise)
 		}
 	}
 }
